@@ -3,6 +3,7 @@ package sym
 import (
 	"fmt"
 	"go/types"
+	"os"
 	"sort"
 	"strings"
 	"time"
@@ -34,16 +35,17 @@ type decision struct {
 
 // Finding is a violation candidate.
 type Finding struct {
-	Kind    string            `json:"kind"` // assert | panic | unwind | alloc | race
-	ID      string            `json:"id"`   // assertion id / panic kind
-	Site    string            `json:"site"` // function (and detail) where it happened
-	Msg     string            `json:"msg"`
-	Tags    map[string]string `json:"tags"`
-	Replay  []ReplayEntry     `json:"replay"`
-	Stack   []string          `json:"stack,omitempty"`
-	Harness string            `json:"harness"`
-	Params  map[string]string `json:"params"`
-	Path    int               `json:"path"`
+	Kind     string            `json:"kind"` // assert | panic | unwind | alloc | race
+	ID       string            `json:"id"`   // assertion id / panic kind
+	Site     string            `json:"site"` // function (and detail) where it happened
+	Msg      string            `json:"msg"`
+	Tags     map[string]string `json:"tags"`
+	Replay   []ReplayEntry     `json:"replay"`
+	Stack    []string          `json:"stack,omitempty"`
+	Harness  string            `json:"harness"`
+	Params   map[string]string `json:"params"`
+	Path     int               `json:"path"`
+	Abstract bool              `json:"abstract,omitempty"` // found on a path that used an uninterpreted abstraction
 }
 
 type ReplayEntry struct {
@@ -70,6 +72,19 @@ type JobConfig struct {
 	MaxFindings int
 	Twin        bool
 	MapOrderMax int // enumerate all map iteration orders up to this many entries
+	SplitDepth  int // frontier mode: stop paths at this many decisions and record the prefix
+	TraceEvery  int // sample every n-th completed path as a concrete trace for native cross-validation
+	MaxTraces   int
+}
+
+// Trace is a concrete witness of one explored path, used to cross-validate the engine against the native build.
+type Trace struct {
+	Harness string
+	Params  map[string]string
+	Vector  []ReplayEntry
+	Covers  []string
+	End     string // done | panic
+	Panic   string
 }
 
 type JobResult struct {
@@ -93,6 +108,9 @@ type JobResult struct {
 	Samples       []string
 	Wall          time.Duration
 	Cuts          map[string]int
+	FastDecided   int
+	Prefixes      [][]int
+	Traces        []*Trace
 }
 
 // Machine executes one job: all paths of one harness under one parameter assignment.
@@ -100,7 +118,7 @@ type Machine struct {
 	prog   *ssa.Program
 	ld     *Loaded
 	ctx    *Ctx
-	solver *Solver
+	solver *Portfolio
 	cfg    JobConfig
 	res    *JobResult
 
@@ -109,35 +127,38 @@ type Machine struct {
 	pos       int
 
 	// per path state
-	pc        []*Term
-	pcSet     map[int]bool
-	globals   map[*ssa.Global]*Cell
-	initDone  map[*ssa.Package]bool
+	pc              []*Term
+	pcSet           map[int]bool
+	globals         map[*ssa.Global]*Cell
+	initDone        map[*ssa.Package]bool
 	foreignGlobals  map[*ssa.Global]*Cell
 	foreignInitDone map[*ssa.Package]bool
-	nondet    []ReplayEntry
-	fixedPos  int
-	tags      map[string]string
-	covers    map[string]bool
-	steps     int
-	noPanic   bool
-	unwind    int
-	allocCap  int64
-	nontriv   bool
-	pathNo    int
-	uuidCtr   int
-	timeCtr   int
-	lastNow   *Term
-	itoaMemo  map[int]*StrV
-	known     map[int]*Term
-	fnInfos   map[*ssa.Function]*fnInfo
-	typeNames map[types.Type]string
-	deadline  time.Time
-	findKeys  map[string]bool
-	sched     *scheduler
-	extState  map[string]interface{}
-	feasCache map[string]SatResult
-	curG      *G
+	nondet          []ReplayEntry
+	fixedPos        int
+	tags            map[string]string
+	covers          map[string]bool
+	steps           int
+	noPanic         bool
+	unwind          int
+	allocCap        int64
+	nontriv         bool
+	pathNo          int
+	uuidCtr         int
+	timeCtr         int
+	lastNow         *Term
+	itoaMemo        map[int]*StrV
+	known           map[int]*Term
+	fnInfos         map[*ssa.Function]*fnInfo
+	typeNames       map[types.Type]string
+	deadline        time.Time
+	findKeys        map[string]bool
+	sched           *scheduler
+	extState        map[string]interface{}
+	feasCache       map[string]SatResult
+	domCache        map[int]bitset
+	curG            *G
+	pathFailed      bool
+	pathAbstract    bool // an uninterpreted abstraction was used on this path: its models need not replay
 }
 
 type fnInfo struct {
@@ -147,13 +168,23 @@ type fnInfo struct {
 
 func NewMachine(ld *Loaded, cfg JobConfig, solverKind string) (*Machine, error) {
 	ctx := NewCtx()
-	sv, err := NewSolver(solverKind, ctx, 10000)
+	var sv *Portfolio
+	var err error
+	if solverKind == "" || solverKind == "portfolio" || solverKind == "z3-new" {
+		sv, err = NewPortfolio(ctx, []string{"z3-new", "cvc5-int", "cvc5"}, []int{1500, 20000, 20000})
+	} else {
+		sv, err = NewPortfolio(ctx, []string{solverKind}, []int{20000})
+	}
 	if err != nil {
 		return nil, err
 	}
+	if p := os.Getenv("SYMGO_SMTLOG"); p != "" {
+		f, _ := os.Create(p)
+		sv.SetLog(f)
+	}
 	m := &Machine{prog: ld.Prog, ld: ld, ctx: ctx, solver: sv, cfg: cfg,
 		foreignGlobals: map[*ssa.Global]*Cell{}, foreignInitDone: map[*ssa.Package]bool{},
-		fnInfos: map[*ssa.Function]*fnInfo{}, findKeys: map[string]bool{}, feasCache: map[string]SatResult{}}
+		domCache: map[int]bitset{}, fnInfos: map[*ssa.Function]*fnInfo{}, findKeys: map[string]bool{}, feasCache: map[string]SatResult{}}
 	m.res = &JobResult{Harness: cfg.Harness, Params: cfg.Params, PathsByEnd: map[string]int{}, Covers: map[string]int{},
 		Funcs: map[string]bool{}, Intrinsics: map[string]bool{}, Cuts: map[string]int{}}
 	return m, nil
@@ -243,6 +274,8 @@ func (m *Machine) resetPath() {
 	m.known = map[int]*Term{}
 	m.extState = map[string]interface{}{}
 	m.sched = nil
+	m.pathFailed = false
+	m.pathAbstract = false
 }
 
 func (m *Machine) runPath(fn *ssa.Function) {
@@ -280,6 +313,7 @@ func (m *Machine) runPath(fn *ssa.Function) {
 		m.res.Inconclusive = appendUniq(m.res.Inconclusive, "unsupported: "+endMsg)
 	case "unwind":
 		m.res.Inconclusive = appendUniq(m.res.Inconclusive, "unwinding bound reached: "+endMsg)
+		m.report(&Finding{Kind: "unwind", ID: "unwind", Site: endMsg, Msg: "loop exceeded the unwinding bound"})
 	case "budget":
 		m.res.Inconclusive = appendUniq(m.res.Inconclusive, "step budget: "+endMsg)
 	case "cut":
@@ -288,11 +322,21 @@ func (m *Machine) runPath(fn *ssa.Function) {
 	m.res.PathsByEnd[end]++
 	m.res.Decisions += len(m.decisions)
 	m.res.Steps += int64(m.steps)
-	if m.nontriv {
+	if m.nontriv || len(m.pc) > 0 {
 		m.res.NontrivPaths++
 	}
 	for k := range m.covers {
 		m.res.Covers[k]++
+	}
+	if (end == "done" || end == "panic") && m.cfg.TraceEvery > 0 && len(m.res.Traces) < m.cfg.MaxTraces && m.pathNo%m.cfg.TraceEvery == 0 && !m.pathFailed && !m.pathAbstract && m.sched == nil {
+		if model, ok := m.pathModel(nil); ok {
+			var cov []string
+			for k := range m.covers {
+				cov = append(cov, k)
+			}
+			sort.Strings(cov)
+			m.res.Traces = append(m.res.Traces, &Trace{Harness: m.cfg.Harness, Params: m.cfg.Params, Vector: m.concretize(model), Covers: cov, End: end, Panic: endMsg})
+		}
 	}
 	if len(m.res.Samples) < 6 && end == "done" && len(m.pc) > 0 && (m.pathNo%37 == 1 || len(m.res.Samples) == 0) {
 		m.res.Samples = append(m.res.Samples, m.sampleString())
@@ -449,6 +493,10 @@ func (m *Machine) feasible(t *Term) bool {
 		return false
 	}
 	sl := m.slice(t)
+	if r, ok := m.fastFeasible(sl, t); ok {
+		m.res.FastDecided++
+		return r
+	}
 	key := queryKey(sl, t)
 	if r, ok := m.feasCache[key]; ok {
 		return r != Unsat
@@ -511,6 +559,7 @@ func (m *Machine) branch(label string, alts ...*Term) int {
 		m.addPC(alts[ch])
 		return ch
 	}
+	m.checkSplit()
 	var feas []int
 	if len(alts) == 2 && alts[0] == m.ctx.Not(alts[1]) {
 		// binary: if one side is infeasible the other is feasible (pc is satisfiable)
@@ -548,6 +597,7 @@ func (m *Machine) choose(label string, n int) int {
 		m.pos++
 		return d.feasible[d.idx]
 	}
+	m.checkSplit()
 	feas := make([]int, n)
 	for i := range feas {
 		feas[i] = i
@@ -555,6 +605,18 @@ func (m *Machine) choose(label string, n int) int {
 	m.decisions = append(m.decisions, decision{feasible: feas, idx: 0, label: label})
 	m.pos++
 	return 0
+}
+
+// checkSplit ends the path in frontier mode once the decision depth is reached.
+func (m *Machine) checkSplit() {
+	if m.cfg.SplitDepth > 0 && len(m.decisions) >= m.cfg.SplitDepth {
+		pre := make([]int, len(m.decisions))
+		for i, d := range m.decisions {
+			pre[i] = d.feasible[d.idx]
+		}
+		m.res.Prefixes = append(m.res.Prefixes, pre)
+		panic(pathEnd{"split", ""})
+	}
 }
 
 // cond2 forks on a boolean term and returns which way this path goes.
@@ -631,6 +693,7 @@ func (m *Machine) concretize(model map[string]uint64) []ReplayEntry {
 func (m *Machine) reportWith(f *Finding, cond *Term) {
 	f.Harness = m.cfg.Harness
 	f.Params = m.cfg.Params
+	f.Abstract = m.pathAbstract
 	f.Path = m.pathNo
 	f.Tags = map[string]string{}
 	for k, v := range m.tags {
@@ -691,6 +754,7 @@ func (m *Machine) assert(cond *Term, id string, site string) {
 		m.res.AssertUnsat++
 	case Sat:
 		m.res.AssertSat++
+		m.pathFailed = true
 		m.reportWith(&Finding{Kind: "assert", ID: id, Site: site, Msg: "assertion can fail"}, neg)
 		// continue under the assumption that it held
 		if !m.feasible(cond) {
